@@ -326,3 +326,31 @@ def _sub_oracle(self, indices, result):
 SubMeshPattern.runtime_oracle = staticmethod(_sub_oracle)
 SubMeshPattern.ensures_locals = staticmethod(_sub_locals)
 SubMeshPattern.after_stmt = staticmethod(_sub_after)
+
+
+# ----------------------------------------------------- transport by rotation (C18)
+@contract("MeshPatt.can_shade", params={"self": "Mesh", "pos": "Cell"}, returns="Seq", props=("C18",))
+class CanShade:
+    """The north-east conditions are checked in the four orientations obtained by rotating pattern
+    and cell together; the value reported for an orientation must name a point of the ORIGINAL
+    pattern that sits on a corner of the original cell (a wrong rotation of the cell, or a wrong
+    back-rotation of the answer, breaks this)."""
+
+    def requires(c, self, pos):
+        return c.and_(c.is_mesh(self), _cell_ok(c, self, pos))
+
+    def ensures(c, self, pos, result):
+        n = c.len(self.pattern)
+        x, y = c.int(pos[0]), c.int(pos[1])
+        p = self.pattern
+
+        def names_corner_point(v):
+            # v is the value of the point at index x-1 or x, and that value is y-1 or y
+            return c.and_(
+                c.or_(v == y - 1, v == y),
+                c.or_(c.and_(x >= 1, c.implies(x >= 1, lambda: p[x - 1] == v)), c.and_(x < n, c.implies(x < n, lambda: p[x] == v))),
+            )
+
+        return c.and_(c.len(result) <= 4, c.forall(0, c.len(result), lambda t: names_corner_point(result[t])))
+
+    modifies = ()
